@@ -56,7 +56,7 @@ func (n *Normer) constIndex(v ssa.Value) (int64, bool) {
 // tableVal: the value of v when it is read out of immutable package-level tables at constant
 // positions (in the current environment of the normaliser).
 func (n *Normer) tableVal(v ssa.Value, depth int) (*Val, bool) {
-	if depth > 8 {
+	if depth > 16 {
 		return nil, false
 	}
 	switch x := v.(type) {
@@ -96,15 +96,34 @@ func (n *Normer) tableVal(v ssa.Value, depth int) (*Val, bool) {
 		if !ok || base.Kind != VMap {
 			return nil, false
 		}
-		k, ok := n.constIndex(lk.Index)
-		if !ok {
-			return nil, false
+		var e *Val
+		if isBoolType(lk.Index.Type()) {
+			e, ok = n.boolKeyEntry(base, lk.Index)
+			if !ok {
+				return nil, false
+			}
+		} else {
+			k, ok := n.constIndex(lk.Index)
+			if !ok {
+				return nil, false
+			}
+			e = base.MapGetInt(k)
 		}
-		e := base.MapGetInt(k)
 		if x.Index == 1 {
 			return &Val{Kind: VBool, B: e != nil}, true
 		}
 		return e, e != nil
+	case *ssa.Parameter:
+		// a table entry handed to a helper (by value): the entry in the calling context
+		arg, ctx, ok := n.paramArg(x)
+		if !ok {
+			return nil, false
+		}
+		saved := n.Ctx
+		n.Ctx = ctx
+		v, okV := n.tableVal(arg, depth+1)
+		n.Ctx = saved
+		return v, okV
 	case *ssa.Lookup:
 		if x.CommaOk {
 			return nil, false
@@ -112,6 +131,10 @@ func (n *Normer) tableVal(v ssa.Value, depth int) (*Val, bool) {
 		base, ok := n.tableVal(x.X, depth+1)
 		if !ok || base.Kind != VMap {
 			return nil, false
+		}
+		if isBoolType(x.Index.Type()) {
+			e, ok := n.boolKeyEntry(base, x.Index)
+			return e, ok && e != nil
 		}
 		k, ok := n.constIndex(x.Index)
 		if !ok {
@@ -123,8 +146,23 @@ func (n *Normer) tableVal(v ssa.Value, depth int) (*Val, bool) {
 	return nil, false
 }
 
+// boolKeyEntry: the entry of a map keyed by bool, when the key is decided in the current environment.
+func (n *Normer) boolKeyEntry(m *Val, key ssa.Value) (*Val, bool) {
+	saved := n.FoldTables
+	n.FoldTables = false
+	c := n.CondOf(key)
+	n.FoldTables = saved
+	if eq, _ := CondEquivalent(c, cTrue); eq {
+		return m.MapGetBool(true), true
+	}
+	if eq, _ := CondEquivalent(c, cFalse); eq {
+		return m.MapGetBool(false), true
+	}
+	return nil, false
+}
+
 func (n *Normer) tableAddrVal(addr ssa.Value, depth int) (*Val, bool) {
-	if depth > 8 {
+	if depth > 16 {
 		return nil, false
 	}
 	switch x := addr.(type) {
@@ -164,6 +202,30 @@ func (n *Normer) tableAddrVal(addr ssa.Value, depth int) (*Val, bool) {
 			return nil, false
 		}
 		return base.List[k], true
+	case *ssa.FreeVar:
+		// a local of the enclosing function captured by a function literal: the variable itself
+		fn := x.Parent()
+		if fn == nil || fn.Parent() == nil {
+			return nil, false
+		}
+		idx := -1
+		for i, fv := range fn.FreeVars {
+			if fv == x {
+				idx = i
+			}
+		}
+		var bound ssa.Value
+		cnt := 0
+		eachInstr(fn.Parent(), func(b *ssa.BasicBlock, ins ssa.Instruction) {
+			if mc, ok := ins.(*ssa.MakeClosure); ok && mc.Fn == ssa.Value(fn) && idx >= 0 && idx < len(mc.Bindings) {
+				bound = mc.Bindings[idx]
+				cnt++
+			}
+		})
+		if cnt != 1 || bound == nil {
+			return nil, false
+		}
+		return n.tableAddrVal(bound, depth+1)
 	case *ssa.Alloc:
 		// local copy of a table element: exactly one store of the whole value
 		stores, paths, escapes := storesTo(x)
@@ -184,7 +246,55 @@ func (n *Normer) loopInstances(blk *ssa.BasicBlock) ([]map[ssa.Value]Poly, bool)
 		return []map[ssa.Value]Poly{{}}, true
 	}
 	idx, phi, init, ok := loopIndex(hdr)
-	if !ok || len(hdr.Succs) != 2 {
+	if rot, okR := rotatedLoop(hdr); okR || !ok {
+		// bottom-tested counting loop (`for i := range 7`): the same enumeration from its own
+		// continue condition
+		if !okR {
+			return nil, false
+		}
+		first, isK := n.Norm(rot.init).IsConst()
+		step := pAdd(NewNormer(n.P).Norm(rot.next), NewNormer(n.P).Norm(rot.phi), -1)
+		if st, isS := step.IsConst(); !isK || !isS || st != 1 {
+			return nil, false
+		}
+		nn := NewNormer(n.P)
+		nn.Bind[rot.phi] = "#i"
+		if li, okL := rot.latch.Instrs[len(rot.latch.Instrs)-1].(*ssa.If); okL {
+			if bo, okB := li.Cond.(*ssa.BinOp); okB && bo.Op == token.LSS && bo.X == rot.next {
+				if k, okF := n.fixedByReach(hdr.Parent(), rot.pre, bo.Y); okF {
+					nn.env = append(nn.env, map[ssa.Value]Poly{bo.Y: pConst(k)})
+				}
+			}
+		}
+		cond := nn.LoopWhile(hdr)
+		if cond == nil {
+			return nil, false
+		}
+		cv := &condVars{bases: map[string]map[int64]bool{}, bools: map[string]bool{}}
+		collect(cond, cv)
+		if len(cv.bools) != 0 || len(cv.bases) != 1 || cv.bases["#i"] == nil {
+			return nil, false
+		}
+		outer, okO := n.loopInstances(rot.pre)
+		if !okO {
+			return nil, false
+		}
+		var out []map[ssa.Value]Poly
+		for _, o := range outer {
+			for i := first; evalCond(cond, map[string]int64{"#i": i}, nil); i++ {
+				if i-first >= 64 {
+					return nil, false
+				}
+				env := map[ssa.Value]Poly{rot.phi: pConst(i), rot.next: pConst(i + 1)}
+				for k, v := range o {
+					env[k] = v
+				}
+				out = append(out, env)
+			}
+		}
+		return out, true
+	}
+	if len(hdr.Succs) != 2 {
 		return nil, false
 	}
 	nn := NewNormer(n.P)
@@ -192,6 +302,13 @@ func (n *Normer) loopInstances(blk *ssa.BasicBlock) ([]map[ssa.Value]Poly, bool)
 	body := hdr.Succs[0]
 	if !body.Dominates(blk) && body != blk {
 		return nil, false
+	}
+	if bound := loopBoundValue(hdr, idx); bound != nil {
+		// a bound that is not a constant by itself but fixed by a test passed on the way to the loop
+		// (`if len(bits) != 15 { return }`)
+		if k, ok := n.fixedByReach(hdr.Parent(), hdr, bound); ok {
+			nn.env = append(nn.env, map[ssa.Value]Poly{bound: pConst(k)})
+		}
 	}
 	cond := nn.EdgeCond(hdr, body)
 	cv := &condVars{bases: map[string]map[int64]bool{}, bools: map[string]bool{}}
@@ -225,4 +342,64 @@ func (n *Normer) loopInstances(blk *ssa.BasicBlock) ([]map[ssa.Value]Poly, bool)
 		}
 	}
 	return out, true
+}
+
+// fixedByReach: the constant the value v is known to equal whenever blk is reached (an equality test
+// on the way, on every path), if any. The value is taken by cases (a slice chosen between a literal
+// and a table row has the literal's length on one path and the tested length on the other).
+func (n *Normer) fixedByReach(fn *ssa.Function, blk *ssa.BasicBlock, v ssa.Value) (int64, bool) {
+	if _, isK := n.Norm(v).IsConst(); isK {
+		return 0, false
+	}
+	reach := n.ReachCond(fn, nil, blk)
+	if eq, _ := CondEquivalent(reach, cFalse); eq {
+		return 0, false
+	}
+	cv := &condVars{bases: map[string]map[int64]bool{}, bools: map[string]bool{}}
+	collect(reach, cv)
+	var K int64
+	have := false
+	for _, cs := range n.valueCases(fn, nil, v, 0) {
+		under := cAnd(reach, cs.cond)
+		if eq, _ := CondEquivalent(under, cFalse); eq {
+			continue
+		}
+		k, isK := cs.val.IsConst()
+		if !isK {
+			found := false
+			probe := cmpCond(token.EQL, cs.val, pConst(0))
+			if probe.Kind != CCmp {
+				return 0, false
+			}
+			for cand := range cv.bases[probe.Base] {
+				if imp, _, _ := CondRelation(under, cmpCond(token.EQL, cs.val, pConst(cand))); imp {
+					k, found = cand, true
+				}
+			}
+			if !found {
+				// the value is outside the fragment (the length of a slice chosen on the way): an
+				// equality among the conjuncts of the reach condition still fixes it
+				var conj func(c *Cond)
+				conj = func(c *Cond) {
+					switch {
+					case c.Kind == CAnd:
+						for _, s := range c.Sub {
+							conj(s)
+						}
+					case (c.Kind == CCmp || c.Kind == CBool) && c.Base == probe.Base && c.Op == "==":
+						k, found = -c.K, true
+					}
+				}
+				conj(under)
+			}
+			if !found {
+				return 0, false
+			}
+		}
+		if have && k != K {
+			return 0, false
+		}
+		K, have = k, true
+	}
+	return K, have
 }
